@@ -24,9 +24,15 @@ fn piece(b: &[u8], exclude_known: bool) -> Piece {
         0 => None,
         1 => Some((0..1 + g(21) % 3).map(|j| DOC_LINES[g(22 + j) % DOC_LINES.len()].to_string()).collect()),
         2 => Some(vec![RAW_BLOCK_DOCS[g(25) % RAW_BLOCK_DOCS.len()].to_string()]),
+        3 => Some(vec!["\n * block with blank\n\n * second line\n ".to_string()]),
         _ => None,
     };
-    Piece { name: NAMES[g(0) % NAMES.len()].to_string(), generics: GENERICS[g(1) % GENERICS.len()].to_string(), imports: imports.into_iter().collect(), doc, body: BODIES[g(26) % BODIES.len()].to_string() }
+    Piece { name: NAMES[g(0) % NAMES.len()].to_string(), generics: GENERICS[g(1) % GENERICS.len()].to_string(), imports: imports.into_iter().collect(), doc, body: {
+        // (the bodies behind the former merge findings are part of the pool: field doc containing
+        // `export type`, blank line inside a field doc)
+        let k = g(26) % (BODIES.len() + 2);
+        if k < BODIES.len() { BODIES[k].to_string() } else if k == BODIES.len() { BODY_EXPORT_WORD.to_string() } else { BODY_BLANK_LINE.to_string() }
+    } }
 }
 
 fuzz_target!(|data: &[u8]| {
@@ -38,7 +44,7 @@ fuzz_target!(|data: &[u8]| {
     if chunk == 0 {
         return;
     }
-    let mut pieces: Vec<Piece> = (0..n).map(|i| piece(&data[1 + i * chunk..1 + (i + 1) * chunk], true)).collect();
+    let mut pieces: Vec<Piece> = (0..n).map(|i| piece(&data[1 + i * chunk..1 + (i + 1) * chunk], false)).collect();
     let mut seen = std::collections::BTreeSet::new();
     pieces.retain(|p| seen.insert(p.name.clone()));
     if pieces.len() < 2 {
